@@ -89,14 +89,26 @@ pub fn gen_circ(rng: &mut Rng, bin: bool, maxcode: u64) -> Circ {
     for i in 0..na as usize {
         if bin {
             let lhs = 2 * (ni + nl + 1 + i as u64);
-            let in0 = match rng.below(6) {
+            // a delta exactly at (or next to) a 7-bit group boundary: 2^(7j) + {-1, 0, 1}
+            let boundary = |rng: &mut Rng, max: u64| -> Option<u64> {
+                let j = rng.range(1, 9) as u32;
+                let d = (1u64 << (7 * j)).wrapping_add(rng.range(0, 2)).wrapping_sub(1);
+                if d <= max { Some(d) } else { None }
+            };
+            let in0 = match rng.below(8) {
                 0 => lhs,
                 1 => lhs - 1,
                 2 => lhs - 2,
                 3 => rng.below(4).min(lhs),
+                4 | 5 => match boundary(rng, lhs) { Some(d) => lhs - d, None => rng.next() % (lhs + 1) },
                 _ => rng.next() % (lhs + 1),
             };
-            let in1 = match rng.below(4) { 0 => in0, 1 => 0, _ => rng.next() % (in0 + 1) };
+            let in1 = match rng.below(6) {
+                0 => in0,
+                1 => 0,
+                2 | 3 => match boundary(rng, in0) { Some(d) => in0 - d, None => rng.next() % (in0 + 1) },
+                _ => rng.next() % (in0 + 1),
+            };
             // sometimes hand the pair over unordered: the writer sorts it
             if rng.chance(1, 4) { c.gates.push((lhs, in1, in0)); } else { c.gates.push((lhs, in0, in1)); }
         } else {
@@ -472,7 +484,17 @@ pub fn gen_case(rng: &mut Rng, opt: &str, _thorough: bool) -> String {
             let repl: Vec<u8> = match (t.kind, rng.below(4)) {
                 (TokKind::Delta(from), 0) => varint(from as u128 + 1, 0),
                 (TokKind::Delta(_), 1) => vec![0x80; 10],
-                (TokKind::Delta(_), 2) => vec![0xff, 0xff, 0xff, 0xff, 0xff, 0xff, 0xff, 0xff, 0xff, 0x02],
+                (TokKind::Delta(_), 2) => {
+                    if rng.chance(1, 2) {
+                        vec![0xff, 0xff, 0xff, 0xff, 0xff, 0xff, 0xff, 0xff, 0xff, 0x02]
+                    } else {
+                        // wrap class: the true delta plus h * 2^64 — a decoder that drops the bits
+                        // shifted out of the tenth byte would read the valid delta back
+                        let mut v: u128 = 0;
+                        for (i, byte) in old.iter().enumerate() { v |= ((byte & 0x7f) as u128) << (7 * i); }
+                        varint(v + ((rng.range(1, 63) as u128) << 64), 0)
+                    }
+                }
                 (TokKind::Delta(from), _) => varint(from as u128 + 1 + rng.below(1000) as u128, 0),
                 (_, 0) => overflow(),
                 (_, 1) => if rng.chance(1, 2) { b"x".to_vec() } else { [old, b"x"].concat() },
